@@ -297,6 +297,15 @@ class ConnectionPool(RequestInterface):
                 # log: "closing idle connection"
                 self._connections.remove(connection)
                 closing_connections.append(connection)
+            elif not connection.is_idle() and not any(
+                request.connection is connection for request in self._requests
+            ):
+                # log: "closing abandoned connection"
+                # A connection that is busy, but that has no request assigned
+                # to it, was abandoned part way through a cancelled request.
+                # It would otherwise never become idle, expire, or be closed.
+                self._connections.remove(connection)
+                closing_connections.append(connection)
 
         # Assign queued requests to connections.
         queued_requests = [request for request in self._requests if request.is_queued()]
